@@ -287,6 +287,8 @@ def eq_term(E, a, b, node, fr):
         o = b if a is None else a
         if o is None:
             return z3.BoolVal(True)
+        if isinstance(o, MaybeNone):
+            return o.is_none
         if isinstance(o, SV) and isinstance(o.ty, TOpt):
             return sort(o.ty).is_none(o.t)
         return z3.BoolVal(False)
